@@ -64,10 +64,23 @@ MANIFEST = dict(
          "with '#' or '//' after leading white space can be removed anywhere). Hypothesis Exact of the INI value theorems: no numeric or "
          "white-space character outside ASCII, decimals with at most 15 significant digits, at most 7 after the point, zero or >= 0.0001 "
          "(otherwise round(float(x), 7) is not modelled: the model answers unsupported). Examples kept as theorems: C17_nonascii_example, "
-         "C17_list_none_cex, C17_maxsplit_escape_example.",
+         "C17_list_none_cex, C17_maxsplit_escape_example. OPEN FINDING C17-j (maxsplit counts escaped delimiters): the theorems above "
+         "describe split_with_escape through the pieces of str.split(delimiter, maxsplit), i.e. they took the budget rule over from "
+         "the code; the character-level reference splitRef / refAux (Model/Esc.lean: one pass, an escaped delimiter stays in its "
+         "item and uses up no split, at most maxsplit REAL cuts) is what the property asks for with maxsplit; "
+         "C17_split_maxsplit_real_cuts_stmt (splitWithEscape = splitRef for every text, delimiter, maxsplit, escape, trim) is kept "
+         "visible and is FALSE on the pinned code: C17_split_maxsplit_real_cuts_cex ('\\;;' with maxsplit 1 gives [';;'], the "
+         "reference [';', '']; 'a\\;b;c;d' with maxsplit 2 gives ['a;b', 'c;d'], the reference ['a;b', 'c', 'd']). PROVED outside "
+         "the class: C17_split_real_cuts_partial - for every text, non-empty delimiter, maxsplit, escape character and trim flag "
+         "such that no escaped delimiter is met while real cuts are limited and still allowed (escWithin, decided by the same "
+         "scan as the reference) splitWithEscape = splitRef; C17_split_real_cuts_no_maxsplit - without maxsplit always "
+         "(refAux_eq_specG: the character scan equals the walk specG over the pieces of the limited split). So the defect is "
+         "located exactly in the class of C17-j. On the implementation: stream esc.ref (Lean splitRef = its Python transcription "
+         "ref_split), esc.cls (Lean escWithin = the harness classifier) and evaluators spec / real_cuts (the code = the reference; "
+         "inputs in the class of C17-j are counted, not reported).",
     note="unescape is modelled as latin-1/backslashreplace encoding followed by CPython's unicode_escape decoder (validated by stream esc.unesc); "
          "upper()/lower() only for ASCII (otherwise unsupported); str.isnumeric() above U+007F is a table (Unicode 15.0) validated at every boundary "
-         "by stream ini.isnum; floats are opaque lexemes. No open finding; fixes proposed in this round: C17-e (non-ASCII text through unescape), "
+         "by stream ini.isnum; floats are opaque lexemes. Open finding: C17-j (escape character + maxsplit >= 1 + an escaped delimiter among the first maxsplit delimiters; fixes/C17-j.proposed.patch measured equal to the reference but not applied - the loop proofs are not moved yet); fixes proposed in this round: C17-e (non-ASCII text through unescape), "
          "C17-g ('KEY +=VALUE' with a blank before '+='); fourth wave: C17-h (unescape keeps None / numbers: a key that got the default value no longer makes unescape raise), C17-i (deserialize_list_of_lists hands parse_empty to the sublists). "
          "Default values that are numbers / bools are outside the model (Option Str) and covered by the evaluators default and dict_roundtrip/flags only.",
     design_ref="5/C17",
@@ -143,18 +156,33 @@ def ref_split(s, d, m, e, tr):
     return items
 
 
-def maxsplit_escape_class(c):
-    """class of the open finding C17-j: an escape character is given and occurs in the text, maxsplit >= 1, and one of the
-    first maxsplit delimiters of the text is escaped (the piece before it ends with an odd run of escapes; for a delimiter
-    that itself ends with the escape character: the piece ends with the escape character or is empty)"""
-    s, d, m, e = c.get("s"), c.get("d"), c.get("m"), c.get("e")
-    if not (isinstance(s, str) and d and e and len(e) == 1 and isinstance(m, int) and m >= 1 and e in s):
+def esc_within(s, d, m, e):
+    """Lean `escWithin e d (limOf m) 0 [] s` (tied by stream esc.cls): scanning like the reference, an escaped delimiter is met
+    while real cuts are limited and still allowed"""
+    if not (e and d and m):
         return False
-    pieces = s.split(d)
-    first = pieces[: min(m, len(pieces) - 1)]
-    if d.endswith(e):
-        return any(p == "" or p.endswith(e) for p in first)
-    return any(run_len(e, p) % 2 == 1 for p in first)
+    cur, i, left = "", 0, m
+    while i < len(s):
+        if s.startswith(d, i):
+            if left == 0:
+                return False
+            if run_len(e, cur) % 2:
+                return True
+            cur, left, i = "", left - 1, i + len(d)
+        else:
+            cur += s[i]
+            i += 1
+    return False
+
+
+def maxsplit_escape_class(c):
+    """class of the open finding C17-j: an escape character is given, maxsplit >= 1, and one of the delimiters met while real cuts
+    are still allowed is escaped (the item before it ends with an odd run of escapes).  Outside this class the model is PROVED
+    equal to the reference (C17_split_real_cuts_partial)."""
+    s, d, m, e = c.get("s"), c.get("d"), c.get("m"), c.get("e")
+    if not (isinstance(s, str) and isinstance(d, str) and d and e and len(e) == 1 and isinstance(m, int) and m >= 1):
+        return False
+    return esc_within(s, d, m, e)
 
 
 def known_real_cuts(c, detail=None):
@@ -304,6 +332,14 @@ def ref_line(c):
 def ref_py(c):
     r = core.call(ref_split, c["s"], c["d"], c["m"], c["e"], c["tr"])
     return okstrs(r[1]) if r[0] == "ok" else "err " + r[1]
+
+
+def cls_line(c):
+    return "esc.cls %s %s %d %s" % (enc_str(c["s"]), enc_str(c["d"]), c["m"] or 0, enc_str(c["e"]))
+
+
+def cls_py(c):
+    return "ok T" if esc_within(c["s"], c["d"], c["m"], c["e"]) else "ok F"
 
 
 def dlist_line(c):
@@ -1130,7 +1166,7 @@ def replay(rp):
 
 
 IMPLS = {"ini.value": ini_value_impl, "ini.isnum": ini_isnum_impl, "ini.parse": ini_parse_impl, "ini.rt": ini_rt_impl, "ini.read": ini_read_impl,
-         "esc.split": split_impl, "esc.spec": spec_py, "esc.ref": ref_py, "esc.dlist": dlist_impl, "esc.kv": kv_impl, "esc.ddict": ddict_impl,
+         "esc.split": split_impl, "esc.spec": spec_py, "esc.ref": ref_py, "esc.cls": cls_py, "esc.dlist": dlist_impl, "esc.kv": kv_impl, "esc.ddict": ddict_impl,
          "esc.ser": ser_impl, "esc.unesc": unesc_impl, "esc.rt": rt_impl, "esc.rtf": rtf_impl, "esc.ddu": ddu_impl,
          "esc.dlol": dlol_impl, "esc.dfix": dfix_impl, "esc.gvt": gvt_impl}
 
@@ -1193,6 +1229,7 @@ def run(ctx):
         c["s"] = gen_text(rng, c["d"], c["e"], rng.choice([6, 10, 16, 24]))
         rc.append(c)
     ctx.correspond("esc.ref", rc, ref_line, ref_py, nontrivial=nt_split)
+    ctx.correspond("esc.cls", [c for c in rc if c["e"] and c["d"]], cls_line, cls_py, nontrivial=lambda c: nt_split(c) and bool(c["m"]))
     ctx.evaluate("real_cuts", rc, check_real_cuts, in_known=known_real_cuts, nontrivial=lambda c: nt_split(c) and bool(c["m"]))
     ctx.extra["real_cuts_in_class_C17j"] = sum(1 for c in rc if maxsplit_escape_class(c))
     plain = []
